@@ -184,3 +184,139 @@ def key_fields(ctx, repo, scope=("varLib/instancer/", "subset/", "varLib/feature
                     missing = sorted(want - got)
                     ctx.ob(rule, f.where, f"key of {cls}: ({', '.join(sorted(got))})", not missing, "" if not missing else f"identity key omits {missing}: records differing only there are treated as duplicates")
     ctx.info.setdefault("key_sites", {})[rule] = n
+
+
+# ---------------------------------------------------------------------------
+# LOST-UPDATE: `x = f(x)` whose result is never read (an in-place update replaced by a rebinding)
+# ---------------------------------------------------------------------------
+LOST_UPDATE_AUDIT = {
+    ("ttLib/tables/S__i_l_f.py", "Pass.decompile", "data = data[oActions[-1]:]"): "trailing cursor advance after the last field; nothing follows",
+    ("varLib/instancer/names.py", "_updateNameTableStyleRecords", "currentStyleName = currentStyleName.toUnicode()"): "unused twin of currentFamilyName; toUnicode() has no effect on the record",
+}
+
+
+def _loads(node):
+    return {n.id for n in ast.walk(node) if isinstance(n, ast.Name) and isinstance(n.ctx, (ast.Load, ast.Del))}
+
+
+def _header_parts(sn):
+    if isinstance(sn, (ast.If, ast.While)):
+        return [sn.test]
+    if isinstance(sn, (ast.For, ast.AsyncFor)):
+        return [sn.iter, sn.target]
+    if isinstance(sn, (ast.With, ast.AsyncWith)):
+        return [it.context_expr for it in sn.items]
+    if isinstance(sn, ast.Try):
+        return []
+    if isinstance(sn, ast.ExceptHandler):
+        return [sn.type] if sn.type else []
+    if isinstance(sn, ast.Match):
+        return [sn.subject]
+    return [sn]
+
+
+def lost_update(ctx, repo, scope=("",), rule="LOST-UPD"):
+    from ..cfg import CFG
+
+    ctx.rule(rule, "a local rebinding computed from the variable's own value (x = sorted(x), x = x[...], x = f(x)) is read afterwards; a dead one means an in-place update of shared data was replaced by a discarded copy", floor=1)
+    seen_audit = set()
+    for rel in sorted(repo.rels()):
+        if not rel.startswith(tuple(scope)):
+            continue
+        mod = repo.mod(rel)
+        total = 0
+        dead = []
+        for q, f in sorted(mod.funcs.items()):
+            fn = f.node
+            cands = [st for st in walk_no_nested(fn) if isinstance(st, ast.Assign) and len(st.targets) == 1 and isinstance(st.targets[0], ast.Name) and st.targets[0].id in _loads(st.value)]
+            if not cands:
+                continue
+            skip = set()
+            for n in ast.walk(fn):
+                if isinstance(n, (ast.Global, ast.Nonlocal)):
+                    skip.update(n.names)
+                if n is not fn and isinstance(n, (ast.FunctionDef, ast.AsyncFunctionDef, ast.Lambda, ast.ClassDef)):
+                    skip |= _loads(n)
+            g = None
+            for st in cands:
+                x = st.targets[0].id
+                if x in skip:
+                    continue
+                if g is None:
+                    g = CFG(fn)
+                i = g.id_of(st)
+                if i is None:
+                    continue
+                total += 1
+                reach = set()
+                for s in g.succ[i]:
+                    reach |= g.reachable_nodes(s)
+                used = any(g.stmt[j] is not None and any(x in _loads(p) for p in _header_parts(g.stmt[j])) for j in reach)
+                if not used:
+                    key = (rel, q, norm(st))
+                    if key in LOST_UPDATE_AUDIT:
+                        seen_audit.add(key)
+                        ctx.ob(rule, f"{rel}:{q}", f"{norm(st)} (audited: {LOST_UPDATE_AUDIT[key]})", True)
+                    else:
+                        dead.append((q, st))
+        if total:
+            ctx.ob(rule, f"{rel}:<module>", f"{total} self-updating rebindings are all read afterwards", not dead, "" if not dead else "; ".join(f"{q}: `{norm(st)}` is never read" for q, st in dead[:3]))
+    for key in LOST_UPDATE_AUDIT:
+        if key[0].startswith(tuple(scope)) and key not in seen_audit and repo.has(key[0]):
+            ctx.note(f"{rule}: audited exception no longer present: {key}")
+
+
+# ---------------------------------------------------------------------------
+# SAVE-RESTORE: orig = obj.attr; obj.attr = <temp>; ...; obj.attr = orig
+# ---------------------------------------------------------------------------
+def save_restore(ctx, repo, scope=("",), rule="SAVE-REST"):
+    from ..cfg import CFG
+
+    ctx.rule(rule, "where a function saves a field (v = o.f), overwrites it and later restores it (o.f = v), the save happens before any overwrite on every path and the saved variable is not reassigned in between", floor=1)
+    for rel in sorted(repo.rels()):
+        if not rel.startswith(tuple(scope)):
+            continue
+        mod = repo.mod(rel)
+        for q, f in sorted(mod.funcs.items()):
+            fn = f.node
+            sts = [s for s in walk_no_nested(fn) if isinstance(s, (ast.Assign, ast.AugAssign))]
+            saves = {}
+            for st in sts:
+                if isinstance(st, ast.Assign) and len(st.targets) == 1 and isinstance(st.targets[0], ast.Name) and isinstance(st.value, (ast.Attribute, ast.Subscript)):
+                    saves.setdefault((st.targets[0].id, norm(st.value)), []).append(st)
+            if not saves:
+                continue
+            g = None
+            for st in sts:
+                if not (isinstance(st, ast.Assign) and len(st.targets) == 1 and isinstance(st.targets[0], (ast.Attribute, ast.Subscript)) and isinstance(st.value, ast.Name)):
+                    continue
+                k = (st.value.id, norm(st.targets[0]))
+                if k not in saves:
+                    continue
+                sv = saves[k][0]
+                if sv.lineno >= st.lineno:
+                    continue
+                others = [s for s in sts if s is not st and s is not sv and any(norm(t) == k[1] for t in (s.targets if isinstance(s, ast.Assign) else [s.target]))]
+                if not others:
+                    continue  # not a save/overwrite/restore triple (a cache fill or similar)
+                vstores = [n for n in ast.walk(fn) if isinstance(n, ast.Name) and n.id == k[0] and isinstance(n.ctx, ast.Store)]
+                if len(vstores) != len(saves[k]):
+                    continue  # the variable is a working copy that is updated and written back, not a saved original
+                if g is None:
+                    g = CFG(fn)
+                isv, ire = g.id_of(sv), g.id_of(st)
+                if isv is None or ire is None:
+                    continue
+                ids = [(s, g.id_of(s)) for s in others if g.id_of(s) is not None]
+                # a triple needs an overwrite that can run before the restore
+                if not any(g.reachable(i, ire) for s, i in ids):
+                    continue
+                early = []
+                for one in saves[k]:
+                    io = g.id_of(one)
+                    if io is None or one.lineno >= st.lineno:
+                        continue
+                    early += [s for s, i in ids if i != io and g.paths_avoiding(i, io, {ire}) and not g.dominates(io, i)]
+                reassigned = []
+                ok = not early and not reassigned
+                ctx.ob(rule, f"{rel}:{q}", f"{norm(sv)} ... {norm(st)}", ok, "" if ok else (f"`{norm(early[0])}` overwrites the field before it is saved: the restore writes back the temporary value" if early else f"saved variable reassigned by `{norm(reassigned[0])}`"))
